@@ -14,14 +14,15 @@ Flags == {"ok", "bad"}                                       \* flag / tag bits 
 Spare == {"zero", "set"}                                     \* unused bits of the encoding
 Curve == {"on-curve", "off-curve"}
 Sub   == {"in-subgroup", "outside"}                          \* outside: on the curve but not in the r-torsion (cofactor component)
-Enc == [coord : Coord, flags : Flags, spare : Spare, curve : Curve, sub : Sub]
+Length == {"exact", "longer"}                                 \* the string is exactly one encoding, or an encoding followed by further bytes
+Enc == [coord : Coord, flags : Flags, spare : Spare, curve : Curve, sub : Sub, length : Length]
 \* formats: whether the format has spare bits, and whether the library relies on subgroup membership
 Formats == {"bls12381-g1", "bls12381-g2", "bls-pk", "sec1-p256", "sec1-p384", "sec1-p521", "ed448-point", "ed25519-key",
-            "ristretto255", "fourq-point", "curve4q-shared", "oprf-pk", "mlkem-ek"}
+            "ristretto255", "fourq-point", "curve4q-shared", "oprf-pk", "mlkem-ek", "eddsa-scheme-key"}
 NeedsSubgroup(f) == f \in {"bls12381-g1", "bls12381-g2", "bls-pk", "sec1-p256", "sec1-p384", "sec1-p521", "ristretto255", "oprf-pk", "curve4q-shared"}
-Accept(f, e) == /\ e.coord = "in-range" /\ e.flags = "ok" /\ e.spare = "zero" /\ e.curve = "on-curve"
+Accept(f, e) == /\ e.coord = "in-range" /\ e.flags = "ok" /\ e.spare = "zero" /\ e.curve = "on-curve" /\ e.length = "exact"
                 /\ (NeedsSubgroup(f) => e.sub = "in-subgroup")
-Canonical == [coord |-> "in-range", flags |-> "ok", spare |-> "zero", curve |-> "on-curve", sub |-> "in-subgroup"]
+Canonical == [coord |-> "in-range", flags |-> "ok", spare |-> "zero", curve |-> "on-curve", sub |-> "in-subgroup", length |-> "exact"]
 EncoderImage == {Canonical}
 \* harness classes -> the encoding they denote (single faults) and the verdict the decision gives
 ClassEnc(c) == CASE c = "valid" -> Canonical
@@ -31,14 +32,15 @@ ClassEnc(c) == CASE c = "valid" -> Canonical
                  [] c = "spare-bits" -> [Canonical EXCEPT !.spare = "set"]
                  [] c = "off-curve" -> [Canonical EXCEPT !.curve = "off-curve"]
                  [] c = "outside-subgroup" -> [Canonical EXCEPT !.sub = "outside"]
-Classes == {"valid", "coord-eq-p", "coord-gt-p", "bad-flags", "spare-bits", "off-curve", "outside-subgroup"}
+                 [] c = "trailing" -> [Canonical EXCEPT !.length = "longer"]
+Classes == {"valid", "coord-eq-p", "coord-gt-p", "bad-flags", "spare-bits", "off-curve", "outside-subgroup", "trailing"}
 Expected(f, c) == IF c \in {"bitflip", "random"} THEN "consistent"           \* validity unknown: only Accept => canonical /\ member is required
                   ELSE IF Accept(f, ClassEnc(c)) THEN "accept" ELSE "reject"
 VARIABLES fmt, enc, verdict
 Init == fmt \in Formats /\ enc \in Enc /\ verdict = "none"
 Decode == verdict = "none" /\ verdict' = (IF Accept(fmt, enc) THEN "accept" ELSE "reject") /\ UNCHANGED <<fmt, enc>>
 Spec == Init /\ [][Decode]_<<fmt, enc, verdict>>
-AcceptOnlyCanonicalMember == verdict = "accept" => (enc.coord = "in-range" /\ enc.flags = "ok" /\ enc.spare = "zero" /\ enc.curve = "on-curve"
+AcceptOnlyCanonicalMember == verdict = "accept" => (enc.coord = "in-range" /\ enc.flags = "ok" /\ enc.spare = "zero" /\ enc.curve = "on-curve" /\ enc.length = "exact"
                                                    /\ (NeedsSubgroup(fmt) => enc.sub = "in-subgroup"))
 EncoderImageAccepted == (verdict # "none" /\ enc \in EncoderImage) => verdict = "accept"
 SingleFault == \A c \in Classes \ {"valid"} : Cardinality({k \in DOMAIN Canonical : ClassEnc(c)[k] # Canonical[k]}) = 1
